@@ -2,7 +2,7 @@
    Statements only; kernels are regenerated from retry.py (Gen/RetryGen.v), proofs in
    Proofs/Retry_Spec.v (kernels) and Proofs/Retry_Inv*.v (interleaving machine Model/Retry.v). *)
 From Coq Require Import List ZArith QArith Qminmax Bool Arith.
-From ME Require Import Base.Machine Base.Fut Base.GenPrelude Gen.RetryGen Proofs.Retry_Spec.
+From ME Require Import Base.Machine Base.Fut Base.GenPrelude Gen.RetryGen Proofs.Retry_Spec Model.Retry Proofs.Retry_InvA.
 Import ListNotations.
 
 (* delays are min(sleep * exponent^(k-1), max_sleep), for all rational parameters and all k *)
@@ -51,8 +51,46 @@ Example c05_runs_instance :
   seq_attempts (fun e b => Nat.eqb e b) 3%Z [7%nat] (fun k => if (k <? 3)%nat then Some 7%nat else None) 5%nat 1%nat = 3%nat.
 Proof. reflexivity. Qed.
 
+(* ---- the interleaving machine Model/Retry.v ---------------------------------------------------- *)
+Close Scope Q_scope.
+Definition reachable := reachable_from step init.
+
+(* attempts of one submission are strictly sequential: at most one delegate future per retry
+   future is not done, in every reachable state (any number of submissions, threads, cancels) *)
+Theorem c05_attempts_sequential : forall s, reachable s -> forall d1 d2,
+  d1 < ndel s -> d2 < ndel s -> dfor s d1 = dfor s d2 ->
+  fdone (ds s d1) = false -> fdone (ds s d2) = false -> d1 = d2.
+Proof. exact retry_one_inflight. Qed.
+
+(* back-off: an attempt is handed to the delegate no earlier than the `when` of its job record ... *)
+Theorem c05_backoff_not_early : forall s, reachable s -> forall j d a ts w,
+  In (HDSubmit j d a ts w) (hist s) -> (w <= ts)%Z.
+Proof. exact retry_backoff_not_early. Qed.
+
+(* ... and for a retry (attempt a+1, a >= 1) that `when` is the time the policy was evaluated for
+   attempt a plus the delay it returned *)
+Theorem c05_when_is_retry_time_plus_delay : forall s, reachable s -> forall j d a ts w,
+  In (HDSubmit j d (S a) ts w) (hist s) -> 1 <= a ->
+  exists delta ts1, In (HRetry j a delta ts1) (hist s) /\ w = (ts1 + delta)%Z.
+Proof. exact retry_when_is_retry_plus_delay. Qed.
+
+(* the submit thread's timed wait is computed from the scan it just made: it sleeps exactly until the
+   earliest `when` among the jobs waiting for a retry, and only when none of them is due or stopped *)
+Theorem c05_wait_is_exact : forall s ts w s', reachable s ->
+  step s (ts, EXSec worker w) = Some s' -> thr s worker = [] ->
+  forall tau rest, thr s' worker = IWWait (Some tau) :: rest ->
+  exists r, In r (jobs s) /\ jdel (recs s r) = None /\ tau = (jwhen (recs s r) - ts)%Z /\
+    forall r', In r' (jobs s) -> jdel (recs s r') = None ->
+      jstop (recs s r') = false /\ (ts < jwhen (recs s r'))%Z /\ (jwhen (recs s r) <= jwhen (recs s r'))%Z.
+Proof. exact retry_wait_exact. Qed.
+
+
 Print Assumptions c05_backoff_formula.
 Print Assumptions c05_should_retry_iff.
 Print Assumptions c05_exception_policy_runs.
 Print Assumptions c05_next_job_choice.
 Print Assumptions c05_policy_raise_no_retry.
+Print Assumptions c05_attempts_sequential.
+Print Assumptions c05_backoff_not_early.
+Print Assumptions c05_when_is_retry_time_plus_delay.
+Print Assumptions c05_wait_is_exact.
